@@ -29,7 +29,16 @@ def crash_violation(item, exc):
           'replay': {'item': item}}
 
 
+class ItemTimeout(BaseException):
+  """Raised by the per-item watchdog (BaseException: library code catching Exception must not swallow it)."""
+
+
+def _on_alarm(signum, frame):
+  raise ItemTimeout()
+
+
 def run(pid, tier, w, W, seed, out, limit):
+  import signal
   logging.disable(logging.CRITICAL)
   warnings.simplefilter('ignore')
   sys.setrecursionlimit(10000)
@@ -47,6 +56,7 @@ def run(pid, tier, w, W, seed, out, limit):
   nviol = 0
   per_sig = {}
 
+  item_timeout = getattr(prop, 'ITEM_TIMEOUT', {}).get(tier, 300 if tier == 'quick' else 1800)
   cans = getattr(prop, 'CANARIES', [])
   for k, (name, fn) in enumerate(cans):
     if k % W == w:
@@ -60,17 +70,27 @@ def run(pid, tier, w, W, seed, out, limit):
       break
     items += 1
     try:
+      # watchdog: a change in the library that makes one item run (nearly) forever must end as a violation, not as a hang
+      signal.signal(signal.SIGALRM, _on_alarm)
+      signal.setitimer(signal.ITIMER_REAL, item_timeout)
       res = prop.check(item)
+      signal.setitimer(signal.ITIMER_REAL, 0)
       if items <= 8 and getattr(prop, 'DETERMINISTIC', True):
         res2 = prop.check(item)
         if res2.get('outcome') != res.get('outcome'):
           determinism_ok = False
           sys.stdout.write('nondeterministic item %r\n%r\n%r\n' % (item, res.get('outcome'), res2.get('outcome')))
+    except ItemTimeout:
+      res = {'viol': [{'sig': 'TIMEOUT', 'msg': 'the item did not finish within %d s (on the unchanged tree every item takes a small fraction of that)' % item_timeout,
+                       'replay': {'item': item}}]}
     except Exception as e:  # pylint:disable=broad-except
+      signal.setitimer(signal.ITIMER_REAL, 0)
       v = crash_violation(item, e)
       if v is None:
         raise
       res = {'viol': [v]}
+    finally:
+      signal.setitimer(signal.ITIMER_REAL, 0)
     for c, v in res.get('n', {}).items():
       n[c] = n.get(c, 0) + v
     o = res.get('outcome')
